@@ -247,9 +247,11 @@ class PatGen:
             for f in v._fields:
                 if f in ('ctx', 'type_comment', 'kind'):
                     continue
-                if f == 'names' and isinstance(v, (ast.Global, ast.Nonlocal)):
-                    # elements are handed to callbacks as FSTView on an FST and as str on an AST (documented): no MCB here
-                    kw[f] = list(v.names) if self.rng.random() < 0.7 else [self.fm.MQSTAR, v.names[-1]]
+                if (f == 'names' and isinstance(v, (ast.Global, ast.Nonlocal))) or (f == 'kwd_attrs' and isinstance(v, ast.MatchClass)):
+                    # lists of plain strings: their elements are handed to callbacks as FSTView on an FST and as str on an
+                    # AST (documented: "the type of node passed to the callback depends on the type of tree"): no MCB here
+                    names = list(getattr(v, f))
+                    kw[f] = names if (self.rng.random() < 0.7 or not names) else [self.fm.MQSTAR, names[-1]]
                     continue
                 kw[f] = self.gen(getattr(v, f, None), depth + 1)
             return cls(**kw)
